@@ -5,3 +5,5 @@ export CARGO_NET_OFFLINE=true
 cd /verif/harness
 CARGO_TARGET_DIR=/verif/.build/harness cargo build --offline --bins
 /verif/.build/harness/debug/vcheck build all
+# secondary engine (C19 thorough tier): libFuzzer target on the period parser; a failure here is not fatal for the quick tier
+(cd /verif/fuzz && CARGO_NET_OFFLINE=true CARGO_TARGET_DIR=/verif/.build/fuzz cargo +nightly fuzz build --fuzz-dir /verif/fuzz period >/dev/null 2>&1) || echo "note: libFuzzer target not built"
